@@ -539,7 +539,11 @@ impl Search for LabeledConcurrentStatement {
             .or_not_found());
         match self.statement.item {
             ConcurrentStatement::Block(ref block) => {
-                // @TODO guard condition
+                return_if_found!(block.guard_condition.search(ctx, searcher));
+                return_if_found!(block.header.generic_clause.search(ctx, searcher));
+                return_if_found!(block.header.generic_map.search(ctx, searcher));
+                return_if_found!(block.header.port_clause.search(ctx, searcher));
+                return_if_found!(block.header.port_map.search(ctx, searcher));
                 return_if_found!(block.decl.search(ctx, searcher));
                 return_if_found!(block.statements.search(ctx, searcher));
             }
